@@ -45,6 +45,8 @@ func (c19) Components() map[string]string {
 func (c19) Gen(r *rand.Rand, tier string, idx int) *core.Plan {
 	p := &core.Plan{World: map[string]int64{}}
 	p.World["disk"] = int64(r.IntN(2))
+	p.World["remote"] = int64(r.IntN(3) / 2) // a third of the runs present the store as a remote registry (two endpoints, paged referrers API)
+	p.World["page"] = int64(r.IntN(4))
 	p.World["rotate"] = int64(r.IntN(5))
 	n := 2 + r.IntN(13)
 	for i := 0; i < n; i++ {
@@ -54,8 +56,10 @@ func (c19) Gen(r *rand.Rand, tier string, idx int) *core.Plan {
 			p.Ops = append(p.Ops, core.Op{Kind: "push", I: []int64{s, int64(r.IntN(2)), int64(r.IntN(10)), int64(r.IntN(3))}})
 		case x < 12:
 			p.Ops = append(p.Ops, core.Op{Kind: "foreign", I: []int64{s, int64(r.IntN(6))}})
-		case x < 14:
+		case x < 13:
 			p.Ops = append(p.Ops, core.Op{Kind: "hostile", I: []int64{s, int64(r.IntN(4))}})
+		case x < 14:
+			p.Ops = append(p.Ops, core.Op{Kind: "legacy", I: []int64{s, int64(r.IntN(5)), int64(r.IntN(2))}})
 		case x < 15:
 			p.Ops = append(p.Ops, core.Op{Kind: "reopen"})
 		default:
@@ -124,11 +128,18 @@ func (l c19) Exec(env *core.Env) *core.Result {
 	model := map[int][]c19Sig{}
 	hostile := map[int]map[digest.Digest]string{0: {}, 1: {}, 2: {}} // manifest digest -> why
 	disturbed := false
+	crossManifests := map[digest.Digest]bool{} // signature manifests whose one "blob" is itself a manifest
 	var trace []map[string]any
 	var task *rt.Task
 	task = sim.Go("client", func() {
 		tgt := &world.Target{Inner: inner, Rotate: int(p.W("rotate"))}
-		repo := registry.NewRepository(tgt)
+		mkRepo := func() registry.Repository {
+			if p.W("remote") == 1 {
+				return registry.NewRepository(&world.RemoteLike{PagingTarget: &world.PagingTarget{Target: tgt, PageSize: int(p.W("page"))}})
+			}
+			return registry.NewRepository(tgt)
+		}
+		repo := mkRepo()
 		envN := 0
 		for _, op := range p.Ops {
 			rt.Yield("op")
@@ -188,14 +199,46 @@ func (l c19) Exec(env *core.Env) *core.Result {
 					cfg, _ := world.EmptyConfig(ctx, inner, registry.ArtifactTypeNotation)
 					envN++
 					ann := map[string]string{"cross": fmt.Sprint(envN)}
-					if _, err := world.PushManifest(ctx, inner, ocispec.Manifest{Config: cfg, Layers: []ocispec.Descriptor{subj}, Subject: &osubj, Annotations: ann}); err == nil {
+					if md, err := world.PushManifest(ctx, inner, ocispec.Manifest{Config: cfg, Layers: []ocispec.Descriptor{subj}, Subject: &osubj, Annotations: ann}); err == nil {
 						model[o] = append(model[o], c19Sig{subj.MediaType, subj.Digest, int(subj.Size), ann})
+						crossManifests[md.Digest] = true
 					}
 				case 4: // a manifest that merely has the subject as a layer
 					cfg, _ := world.EmptyConfig(ctx, inner, registry.ArtifactTypeNotation)
 					world.PushManifest(ctx, inner, ocispec.Manifest{Config: cfg, Layers: []ocispec.Descriptor{subj}, Annotations: map[string]string{"n": fmt.Sprint(len(trace))}})
 				}
 				sim.Abstract(fmt.Sprint("foreign", s, op.Int(1)))
+			case "legacy":
+				// pre-1.1 artifact manifests: a notation-typed one is a signature like any other
+				subj := subjects[s]
+				envN++
+				blob := []byte(fmt.Sprintf("legacy-envelope-%d-%s", envN, strings.Repeat("z", 200)))
+				mt := world.Formats[op.Int(2)%2]
+				bd, _ := world.PushBlob(ctx, inner, mt, blob)
+				ann := map[string]string{"legacy": fmt.Sprint(envN)}
+				switch op.Int(1) {
+				case 0:
+					if _, err := world.PushLegacyArtifact(ctx, inner, registry.ArtifactTypeNotation, []ocispec.Descriptor{bd}, &subj, ann); err == nil {
+						model[s] = append(model[s], c19Sig{mt, digest.FromBytes(blob), len(blob), ann})
+					}
+				case 1:
+					world.PushLegacyArtifact(ctx, inner, "application/vnd.example.sbom", []ocispec.Descriptor{bd}, &subj, ann)
+				case 2:
+					bd2, _ := world.PushBlob(ctx, inner, mt, append([]byte("second "), blob...))
+					if d, err := world.PushLegacyArtifact(ctx, inner, registry.ArtifactTypeNotation, []ocispec.Descriptor{bd, bd2}, &subj, ann); err == nil {
+						hostile[s][d.Digest] = "two layers"
+					}
+				case 3:
+					world.PushLegacyArtifact(ctx, inner, registry.ArtifactTypeNotation, []ocispec.Descriptor{bd}, nil, ann)
+				case 4: // a legacy signature of ANOTHER subject whose one blob is this subject's manifest
+					o := (s + 1) % 3
+					osubj := subjects[o]
+					if md, err := world.PushLegacyArtifact(ctx, inner, registry.ArtifactTypeNotation, []ocispec.Descriptor{subj}, &osubj, ann); err == nil {
+						model[o] = append(model[o], c19Sig{subj.MediaType, subj.Digest, int(subj.Size), ann})
+						crossManifests[md.Digest] = true
+					}
+				}
+				sim.Abstract(fmt.Sprint("legacy", s, op.Int(1)))
 			case "hostile":
 				subj := subjects[s]
 				cfg, _ := world.EmptyConfig(ctx, inner, registry.ArtifactTypeNotation)
@@ -224,7 +267,7 @@ func (l c19) Exec(env *core.Env) *core.Result {
 					if s2, err := open(); err == nil {
 						inner = s2
 						tgt = &world.Target{Inner: inner, Rotate: int(p.W("rotate"))}
-						repo = registry.NewRepository(tgt)
+						repo = mkRepo()
 						disturbed = true
 						sim.Abstract("reopen")
 					}
@@ -286,6 +329,11 @@ func (l c19) Exec(env *core.Env) *core.Result {
 					fb := task.FaultsSeen
 					blob, bd, ferr := repo.FetchSignatureBlob(ctx, d)
 					if ferr != nil {
+						if p.W("remote") == 1 && crossManifests[d.Digest] {
+							// a registry's blob endpoint does not serve manifests: this contrived signature is listed but not fetchable there
+							got = append(got, "<fetch failed under fault>")
+							continue
+						}
 						if task.FaultsSeen == fb {
 							res.Violate("C19/fetch-of-pushed-signature-failed", fmt.Sprint("subject ", s), "FetchSignatureBlob: %v", ferr)
 						}
